@@ -24,7 +24,7 @@ GEN_MODULES = ['stat']
 MODEL_TARGETS = ['model/M_Stat.vo']
 PROOF_TARGETS = ['proofs/P_StatTop.vo']
 LEVEL = 'proof'
-RULE = ('fit results with ns <0, =0 (+0.0 and -0.0), >0, NaN/inf, any log-likelihood value, ns at every position of '
+RULE = ('history probes on real ZeroSigH0/MultiDataset likelihood objects (TS and calculate_ns_grad2 three times, interleaved), p-value helpers on a buffer refilled in place; fit results with ns <0, =0 (+0.0 and -0.0), >0, NaN/inf, any log-likelihood value, ns at every position of '
         '1..4 floating parameters with fixed parameters interleaved, wrong lengths / unknown names as malformed stream; '
         'all four real calculate_ns_grad2 signatures, all keyword subsets; TS samples of 0..60 dyadic values with ties, '
         'duplicates, single element, thresholds on / between / outside sample values, both operators + invalid one; '
@@ -357,6 +357,11 @@ def run_ts_case(ctx, case, lines, checks):
                               f'TS = {impl[1]} but 2 sgn(ns) logLambda = {want}', case=case, impl=impl,
                               predicate='TS = 2 sgn(ns) log Lambda for ns != 0')
 
+    if fpv.tobytes() != np.array(case['fpv'], dtype=np.float64).tobytes() or \
+            grads.tobytes() != np.array(case['grads'], dtype=np.float64).tobytes():
+        ctx.violation('LLHRatioZeroNsTaylorWilksTestStatistic.__call__', 'argument-array-modified',
+                      'fitparam_values / grads changed by the test statistic', case=case)
+
     # ---- Analysis.calculate_test_statistic with / without the extra keywords, both variants
     for v, ts_obj in (('W', w), ('T', t)):
         ana = make_analysis(pmm, ts_obj, ll, fpv)
@@ -505,6 +510,8 @@ def run_pval_case(ctx, case, lines, checks):
                               case={'kind': 'pval1', 'vals': vals, 'thr': t, 'op': 'both'}, impl=got)
             for op in got:
                 prev[op] = (t, got[op])
+    if arr.tobytes() != np.array([z2f(v) for v in vals], dtype=np.float64).tobytes():
+        ctx.violation('calculate_pval_from_trials', 'argument-array-modified', 'ts_vals changed by the call', case=case)
     # default operator of calculate_pval_from_trials (= 'greater')
     t = case['thr'][len(case['thr']) // 2]
     try:
@@ -708,6 +715,256 @@ def run_poly_case(ctx, case, lines, checks):
         ctx.count('poly:deg2-inverted')
 
 
+
+# ============================================================== history probes (no model: "the result is a function of the inputs")
+
+def build_real_llhratio(R, N):
+    """a real ZeroSigH0SingleDatasetTCLLHRatio (real pmm, minimizer, shg manager, trial data manager; a PDFRatio
+    subclass returning the fixed per-event ratios R), initialised for a trial with N events"""
+    from skyllh.core.config import Config
+    from skyllh.core.llhratio import ZeroSigH0SingleDatasetTCLLHRatio
+    from skyllh.core.minimizer import LBFGSMinimizerImpl, Minimizer
+    from skyllh.core.parameters import Parameter, ParameterModelMapper
+    from skyllh.core.pdfratio import PDFRatio
+    from skyllh.core.source_hypo_grouping import SourceHypoGroupManager
+    from skyllh.core.source_model import SourceModel
+    from skyllh.core.storage import DataFieldRecordArray
+    from skyllh.core.trialdata import TrialDataManager
+
+    class FixedPDFRatio(PDFRatio):
+        def __init__(self, ratios, **kwargs):
+            super().__init__(sig_param_names=None, bkg_param_names=None, **kwargs)
+            self.ratios = np.asarray(ratios, dtype=np.float64)
+
+        def initialize_for_new_trial(self, tdm, tl=None, **kwargs):
+            pass
+
+        def get_ratio(self, tdm, src_params_recarray, tl=None):
+            return self.ratios.copy()
+
+        def get_gradient(self, tdm, src_params_recarray, fitparam_id, tl=None):
+            return np.zeros_like(self.ratios)
+
+    cfg = Config()
+    src = SourceModel()
+    shg_mgr = SourceHypoGroupManager()
+    pmm = ParameterModelMapper(models=[src])
+    pmm.map_param(Parameter('ns', 0.0, valmin=0.0, valmax=100.0))
+    events = DataFieldRecordArray(np.array(np.arange(len(R)), dtype=[('evt', np.int64)]))
+    tdm = TrialDataManager()
+    tdm.initialize_trial(shg_mgr=shg_mgr, pmm=pmm, events=events, n_events=N)
+    llh = ZeroSigH0SingleDatasetTCLLHRatio(
+        cfg=cfg, pmm=pmm, minimizer=Minimizer(LBFGSMinimizerImpl(cfg=cfg)), shg_mgr=shg_mgr, tdm=tdm,
+        pdfratio=FixedPDFRatio(R, cfg=cfg))
+    llh.initialize_for_new_trial()
+    return pmm, llh
+
+
+def doc_ab(R, N):
+    """first and second derivative of log Lambda at ns = 0 from the manual's formulas, in exact rationals"""
+    F = Fraction
+    X = [(F(r) - 1) / N for r in R]
+    a = sum(X) - F(N - len(R), N)
+    b = -sum(x * x for x in X) - F(N - len(R), N * N)
+    return a, b
+
+
+def gen_hist_ts_case(ctx, rng):
+    n = rng.choice([1, 2, 3, 5, 10, 25])
+    R = [rng.choice([0.0, 0.05, 0.2, 0.5, 1.0, 1.7, 3.0, 12.0, round(rng.uniform(0, 6), 3)]) for _ in range(n)]
+    R2 = [rng.choice([0.0, 0.3, 0.9, 2.5, 7.0, round(rng.uniform(0, 4), 3)]) for _ in range(rng.choice([1, 3, 8]))]
+    return {'kind': 'hist_ts', 'R': R, 'N': n + rng.choice([0, 1, 15, 200]), 'R2': R2, 'N2': len(R2) + rng.choice([0, 4, 50]),
+            'f': rng.choice([[0.5, 0.5], [0.25, 0.75], [1.0, 0.0]]), 'll': rng.choice([0.0, 1.25, -3.0])}
+
+
+def run_hist_ts_case(ctx, case):
+    """repeat / interleave probes on REAL likelihood objects: the zero-ns Taylor TS and calculate_ns_grad2 called three
+    times for the same fit result, interleaved with the Wilks TS, another ns and the p-value helpers on the same arrays"""
+    import skyllh.core.utils.analysis as UA
+    from skyllh.core import llhratio as L
+    from skyllh.core.test_statistic import WilksTestStatistic, LLHRatioZeroNsTaylorWilksTestStatistic
+    ctx.count('hist:ts')
+    site_t = 'LLHRatioZeroNsTaylorWilksTestStatistic.__call__'
+    site_b = 'ZeroSigH0SingleDatasetTCLLHRatio.calculate_ns_grad2'
+    fpv = np.array([0.0])
+    with warnings.catch_warnings():
+        warnings.simplefilter('ignore')
+        objs = []
+        for R, N in ((case['R'], case['N']), (case['R2'], case['N2'])):
+            try:
+                pmm, llh = build_real_llhratio(R, N)
+                (ll, grads) = llh.evaluate(fpv)
+            except Exception as ex:       # construction is not C12's subject: fall back to hand-set state
+                ctx.count('hist:real-construction-failed')
+                ctx.notes.append(f'real ZeroSigH0 construction failed ({exc_name(ex)}): hand-set state used')
+                pmm = build_pmm([('ns', True)])
+                X = (np.array(R, dtype=np.float64) - 1.) / N
+                llh = make_llh(1, ['real', list(X), len(R), N - len(R)])
+                ll, grads = 0.0, np.array([float(np.sum(X) - (N - len(R)) / N)])
+            objs.append((pmm, llh, float(ll), np.array(grads, dtype=np.float64), R, N))
+        t = LLHRatioZeroNsTaylorWilksTestStatistic()
+        w = WilksTestStatistic()
+        # ---- single dataset
+        for (pmm, llh, ll, grads, R, N) in objs[:1]:
+            a, b = doc_ab(R, N)
+            snap = (fpv.tobytes(), grads.tobytes())
+            Rarr = np.array(R, dtype=np.float64)
+            rs = Rarr.tobytes()
+            ts, bs = [], []
+            try:
+                ts.append(float(t(pmm=pmm, log_lambda=ll, fitparam_values=fpv, llhratio=llh, grads=grads)))
+                bs.append(float(llh.calculate_ns_grad2(ns=0.0)))
+                w1 = float(w(pmm=pmm, log_lambda=ll, fitparam_values=fpv))
+                p1 = UA.calculate_pval_from_trials(grads, 0.0)
+                p1r = UA.calculate_pval_from_trials(Rarr, 1.0, comp_operator='greater_equal')
+                ts.append(float(t(pmm=pmm, log_lambda=ll, fitparam_values=fpv, llhratio=llh, grads=grads)))
+                other = float(llh.calculate_ns_grad2(ns=0.5))          # another argument in between
+                bs.append(float(llh.calculate_ns_grad2(ns=0.0)))
+                ts.append(float(t(pmm=pmm, log_lambda=ll, fitparam_values=fpv, llhratio=llh, grads=grads)))
+                bs.append(float(llh.calculate_ns_grad2(ns=0.0)))
+                w2 = float(w(pmm=pmm, log_lambda=ll, fitparam_values=fpv))
+                p2 = UA.calculate_pval_from_trials(grads, 0.0)
+            except Exception as ex:
+                ctx.violation(site_t, 'raises-' + exc_name(ex) + '-on-repeated-call',
+                              'repeated evaluation for the same fit result raises', case=case, impl=[ts, bs])
+                return
+            if len(set(bs)) != 1:
+                ctx.violation(site_b, 'repeated-call-differs',
+                              f'calculate_ns_grad2(ns=0) called three times for the same fit result: {bs}', case=case, impl=bs,
+                              predicate='the second derivative is a function of the fit result')
+            if len(set(ts)) != 1:
+                ctx.violation(site_t, 'repeated-call-differs',
+                              f'TS evaluated three times for the same fit result: {ts}', case=case, impl=ts,
+                              predicate='the test statistic is a function of the fit result')
+            if b != 0:
+                want = Fraction(-2) * a * a / (4 * b)
+                for k, v in enumerate(ts):
+                    if not math.isfinite(v) or abs(Fraction(v) - want) > Fraction(1, 10 ** 11) * abs(want) + Fraction(1, 10 ** 300):
+                        ctx.violation(site_t, 'wrong-apex-real-llhratio',
+                                      f'call {k + 1}: TS = {v}, documented -2a^2/(4b) = {float(want)}', case=case, impl=ts,
+                                      predicate='TS(ns=0) = -2 a^2/(4 b) with a, b the derivatives of log Lambda at ns = 0')
+                        break
+                for k, v in enumerate(bs):
+                    if abs(Fraction(v) - b) > Fraction(1, 10 ** 11) * abs(b):
+                        ctx.violation(site_b, 'wrong-second-derivative', f'call {k + 1}: {v}, expected {float(b)}',
+                                      case=case, impl=bs)
+                        break
+            if w1 != w2 or w1 != 2 * ll or tuple(p1) != tuple(p2):
+                ctx.violation('WilksTestStatistic.__call__', 'repeated-call-differs', f'{w1} {w2} / {p1} {p2}', case=case)
+            if (fpv.tobytes(), grads.tobytes()) != snap or Rarr.tobytes() != rs:
+                ctx.violation(site_t, 'argument-array-modified', 'fitparam_values / grads / sample array changed by the calls',
+                              case=case)
+        # ---- multi dataset: real MultiDatasetTCLLHRatio.calculate_ns_grad2 over the two real single-dataset objects
+        f = np.array(case['f'], dtype=np.float64)
+
+        class Svc:
+            def get_weights(self):
+                return (f.copy(), {})
+        multi = object.__new__(L.MultiDatasetTCLLHRatio)
+        multi._llhratio_list = [o[1] for o in objs]
+        multi._ds_sig_weight_factors_service = Svc()
+        pmm = objs[0][0]
+        gm = np.array([sum(float(fj) * float(o[3][0]) for fj, o in zip(f, objs))])
+        want_b = sum(Fraction(float(fj)) ** 2 * doc_ab(o[4], o[5])[1] for fj, o in zip(f, objs))
+        ts, bs = [], []
+        try:
+            for _ in range(3):
+                bs.append(float(multi.calculate_ns_grad2(ns=np.float64(0.0), ns_pidx=0, src_params_recarray=None)))
+                ts.append(float(t(pmm=pmm, log_lambda=case['ll'], fitparam_values=fpv, llhratio=multi, grads=gm)))
+                w(pmm=pmm, log_lambda=case['ll'], fitparam_values=fpv)
+        except Exception as ex:
+            ctx.violation('MultiDatasetTCLLHRatio.calculate_ns_grad2', 'raises-' + exc_name(ex) + '-on-repeated-call',
+                          'repeated evaluation raises', case=case, impl=[ts, bs])
+            return
+        if len(set(bs)) != 1 or len(set(ts)) != 1:
+            ctx.violation('MultiDatasetTCLLHRatio.calculate_ns_grad2', 'repeated-call-differs',
+                          f'three calls for the same fit result: b = {bs}, TS = {ts}', case=case, impl=[bs, ts],
+                          predicate='the test statistic is a function of the fit result')
+        elif want_b != 0 and abs(Fraction(bs[0]) - want_b) > Fraction(1, 10 ** 11) * abs(want_b):
+            ctx.violation('MultiDatasetTCLLHRatio.calculate_ns_grad2', 'wrong-second-derivative',
+                          f'{bs[0]}, expected sum_j f_j^2 b_j = {float(want_b)}', case=case, impl=bs)
+        elif want_b != 0:
+            am = Fraction(float(gm[0]))
+            want = Fraction(-2) * am * am / (4 * want_b)
+            if abs(Fraction(ts[0]) - want) > Fraction(1, 10 ** 11) * abs(want) + Fraction(1, 10 ** 300):
+                ctx.violation(site_t, 'wrong-apex-real-llhratio', f'multi-dataset: TS = {ts[0]}, -2a^2/(4b) = {float(want)}',
+                              case=case, impl=ts)
+
+
+def gen_hist_pval_case(ctx, rng):
+    n = rng.choice([1, 2, 5, 20, 200])
+    S = 2 ** TS_SHIFT
+    b1 = [0 if rng.random() < 0.5 else int(rng.gammavariate(0.5, 2.0) * S) for _ in range(n)]
+    b2 = [int((4 + rng.gammavariate(2.0, 2.0)) * S) for _ in range(n)]
+    other = [rng.randrange(-S, 9 * S) for _ in range(rng.choice([n, n + 3]))]
+    return {'kind': 'hist_pval', 'b1': b1, 'b2': b2, 'other': other, 'thr': sorted({2 * S, 4 * S, rng.choice(b1 + b2)})}
+
+
+def run_hist_pval_case(ctx, case):
+    """repeat probes and 'buffer refilled in place, same object' for the p-value helpers"""
+    import skyllh.core.utils.analysis as UA
+    ctx.count('hist:pval')
+    site = 'calculate_pval_from_trials'
+    S = 2 ** TS_SHIFT
+    buf = np.empty((len(case['b1']),), dtype=np.float64)
+    other = np.array([z2f(v) for v in case['other']], dtype=np.float64)
+
+    def brute(vals, t, op):
+        return sum(1 for v in vals if (v > t if op == 'greater' else v >= t)) / len(vals)
+
+    def probe(vals, label, evict):
+        for t in case['thr']:
+            for op in ('greater', 'greater_equal'):
+                snap = buf.tobytes()
+                r1 = UA.calculate_pval_from_trials(buf, z2f(t), comp_operator=op)
+                if evict:
+                    UA.calculate_pval_from_trials(other, z2f(t), comp_operator=op)
+                r2 = UA.calculate_pval_from_trials(buf, z2f(t), comp_operator=op)
+                r3 = UA.calculate_pval_from_trials_mixed(buf, z2f(t), switch_at_ts=z2f(t) + 1.0, comp_operator=op)
+                want = brute(vals, t, op)
+                if buf.tobytes() != snap:
+                    ctx.violation(site, 'argument-array-modified', 'ts_vals changed by the call', case=case)
+                if not (float(r1[0]) == float(r2[0]) == float(r3[0]) == want and float(r1[1]) == float(r2[1]) == float(r3[1])):
+                    ctx.violation(site, 'stale-or-irreproducible-after-' + label,
+                                  f'{label}, thr={z2f(t)}, {op}: got {tuple(r1)}, {tuple(r2)}, mixed {tuple(r3)}; '
+                                  f'fraction of the trials in the array = {want}',
+                                  case=case, impl=[list(map(float, r1)), list(map(float, r2)), list(map(float, r3))],
+                                  predicate='p = fraction of the CURRENT sample values above the threshold')
+    buf[:] = [z2f(v) for v in case['b1']]
+    probe(case['b1'], 'first-fill', False)
+    buf[:] = [z2f(v) for v in case['b2']]          # same object, same size, new trials
+    probe(case['b2'], 'in-place-refill', False)
+    probe(case['b2'], 'in-place-refill', True)
+    buf[:] = [z2f(v) for v in case['b1']]
+    probe(case['b1'], 'in-place-refill', True)
+
+
+def run_hist_poly_case(ctx, case):
+    """polynomial_fit twice on the same arrays, another request in between; arguments unchanged"""
+    import skyllh.core.utils.analysis as UA
+    ctx.count('hist:poly')
+    a_ns, a_p, a_w = np.array(case['ns']), np.array(case['p']), np.array(case['w'])
+    snap = (a_ns.tobytes(), a_p.tobytes(), a_w.tobytes())
+
+    def one(deg, thr):
+        try:
+            with warnings.catch_warnings():
+                warnings.simplefilter('ignore')
+                return ['Ok', float(UA.polynomial_fit(a_ns, a_p, a_w, deg, thr))]
+        except Exception as ex:
+            return ['Err', exc_name(ex)]
+    r1 = one(case['deg'], case['p_thr'])
+    one(3 - case['deg'] if case['deg'] in (1, 2) else 1, 0.5)
+    r2 = one(case['deg'], case['p_thr'])
+    r3 = one(case['deg'], case['p_thr'])
+    same = all(x[0] == r1[0] and (x[1] == r1[1] or (x[0] == 'Ok' and math.isnan(x[1]) and math.isnan(r1[1]))) for x in (r2, r3))
+    if not same:
+        ctx.violation('polynomial_fit', 'repeated-call-differs', f'{r1} {r2} {r3}', case=case, impl=[r1, r2, r3],
+                      predicate='the inversion is a function of its arguments')
+    if (a_ns.tobytes(), a_p.tobytes(), a_w.tobytes()) != snap:
+        ctx.violation('polynomial_fit', 'argument-array-modified', 'ns / p / p_weight changed by the call', case=case)
+
+
 # ============================================================== driver
 
 def canon_impl(site, impl):
@@ -782,6 +1039,11 @@ def corpus_cases():
     out.append({'kind': 'poly', 'ns': [0.0, 1.0, 2.0, 3.0, 4.0], 'p': [0.2, 0.25, 0.4, 0.6, 0.9],
                 'w': [10.0] * 5, 'deg': 2, 'p_thr': 0.5})            # convex: falls back to degree 1
     out.append({'kind': 'poly', 'ns': [0.0, 1.0, 2.0], 'p': [0.2, 0.5, 0.9], 'w': [1.0] * 3, 'deg': 2, 'p_thr': 0.5})
+    # history probes (seeded C12-3: cache squared in place; seeded C12-4: sorted-trials memo keyed by id/size)
+    out.append({'kind': 'hist_ts', 'R': [0.2, 0.5, 1.0, 1.7, 3.0, 0.05, 0.9, 12.0, 0.4, 0.0], 'N': 25,
+                'R2': [0.3, 2.5, 0.9], 'N2': 7, 'f': [0.25, 0.75], 'll': 0.0})
+    out.append({'kind': 'hist_pval', 'b1': [0, 0, S // 2, S, 0, 3 * S], 'b2': [5 * S, 6 * S, 9 * S, 4 * S, 7 * S, 5 * S],
+                'other': [S, 2 * S, 3 * S, 4 * S, 5 * S, 6 * S], 'thr': [2 * S, 4 * S]})
     return out
 
 
@@ -793,6 +1055,12 @@ def run_one(ctx, case, lines, checks):
         run_pval_case(ctx, case, lines, checks)
     elif k == 'poly':
         run_poly_case(ctx, case, lines, checks)
+        if case.get('probe'):
+            run_hist_poly_case(ctx, case)
+    elif k == 'hist_ts':
+        run_hist_ts_case(ctx, case)
+    elif k == 'hist_pval':
+        run_hist_pval_case(ctx, case)
     else:
         raise ValueError(f'unknown case kind {k}')
 
@@ -857,8 +1125,15 @@ def run(ctx):
         cases.append(gen_pval_case(ctx, rng, n))
     for _ in range(n_pv):
         cases.append(gen_pval_case(ctx, rng))
-    for _ in range(n_po):
-        cases.append(gen_poly_case(ctx, rng))
+    for i in range(n_po):
+        c = gen_poly_case(ctx, rng)
+        if i % 10 == 0:
+            c['probe'] = True
+        cases.append(c)
+    for _ in range(ctx.budget(40, 400)):
+        cases.append(gen_hist_ts_case(ctx, rng))
+    for _ in range(ctx.budget(30, 300)):
+        cases.append(gen_hist_pval_case(ctx, rng))
     run_sig_cases(ctx, lines, checks)
     for c in cases:
         ctx.case(c)
@@ -879,7 +1154,7 @@ def replay(ctx, rp):
     elif kind == 'mixed1':
         c = {'kind': 'pval', 'vals': c['vals'], 'thr': [c['thr']], 'switch': c['switch'], 'eta': c['eta'],
              'n_max': c['n_max'], 'bad_op': False}
-    elif kind not in ('ts', 'pval', 'poly'):
+    elif kind not in ('ts', 'pval', 'poly', 'hist_ts', 'hist_pval'):
         ctx.notes.append('replay file has no concrete input (broken obligation / signature table): re-running the full check')
         return run(ctx)
     c.pop('variant', None)
